@@ -448,6 +448,11 @@ fn view_action<P: HP, T: HV>(v: TrieView<'_, P, T>, action: &[&str]) -> String {
             format!("ok;{}", list_or_diverge(xs.into_iter().map(|x| x.show()).collect(), d))
         }
         ["walk"] => format!("ok;{}", walk(Some(v), P::W + 2)),
+        // `IntoIterator for TrieView`
+        ["intoiter"] => {
+            let (xs, d) = drain(v.into_iter());
+            format!("ok;{}", list_or_diverge(xs.into_iter().map(|(p, x)| fpv(p, x)).collect(), d))
+        }
         ["has"] => format!("ok;{},{}", fb(v.left().is_some()), fb(v.right().is_some())),
         // the view re-borrowed through `AsView`
         ["aspv"] => {
